@@ -533,8 +533,8 @@ impl<'a> Gen<'a> {
         let guid = if self.rng.chance(1, 25) { String::new() } else { format!("file-{}", gen_string(self.rng)) };
         for _ in 0..self.rng.below(3) {
             let ns = (*self.rng.pick(&["ext", "nor", "my-ext_2", "e57x", "xmlbad", "", "bad ns", "ext"])).to_string();
-            let url = (*self.rng.pick(&["http://example.com/ext", "http://www.libe57.org/E57_NOR_surface_normals.txt", "urn:x", "http://a/?b=1&c=2", "a\"b", "<u>", "", "http://www.astm.org/COMMIT/E57/2010-e57-v1.0"])).to_string();
-            if ref_valid_name(&ns) && !self.exts.iter().any(|e| e.0 == ns) && !self.exts.iter().any(|e| e.1 == url) && !url.is_empty() && url != "http://www.astm.org/COMMIT/E57/2010-e57-v1.0" {
+            let url = (*self.rng.pick(&["http://example.com/ext", "http://www.libe57.org/E57_NOR_surface_normals.txt", "urn:x", "http://a/?b=1&c=2", "a\"b", "<u>", "", "http://www.astm.org/COMMIT/E57/2010-e57-v1.0", "http://www.w3.org/XML/1998/namespace", "http://www.w3.org/2000/xmlns/", "urn:tab\there", "urn:two\nlines", " lead and trail "])).to_string();
+            if ref_valid_name(&ns) && !self.exts.iter().any(|e| e.0 == ns) && !self.exts.iter().any(|e| e.1 == url) && !url.is_empty() && url != "http://www.astm.org/COMMIT/E57/2010-e57-v1.0" && !["http://www.w3.org/XML/1998/namespace", "http://www.w3.org/2000/xmlns/"].contains(&url.as_str()) {
                 self.exts.push((ns.clone(), url.clone()));
             }
             stmts.push(Stmt::Ext(ns, url));
@@ -604,7 +604,7 @@ pub fn oracle_program(sink: &mut Sink, line: &str, prog: &Program, run: &Run) {
             Stmt::Ext(ns, url) => {
                 let r = res(k);
                 // a namespace is identified by its URL: one prefix per URL, and never the E57 namespace itself
-                let expect_ok = ref_valid_name(ns) && !exts.iter().any(|e| &e.0 == ns) && !exts.iter().any(|e| &e.1 == url) && !url.is_empty() && url != "http://www.astm.org/COMMIT/E57/2010-e57-v1.0";
+                let expect_ok = ref_valid_name(ns) && !exts.iter().any(|e| &e.0 == ns) && !exts.iter().any(|e| &e.1 == url) && !url.is_empty() && url != "http://www.astm.org/COMMIT/E57/2010-e57-v1.0" && !["http://www.w3.org/XML/1998/namespace", "http://www.w3.org/2000/xmlns/"].contains(&url.as_str());
                 if r == "panic" {
                     sink.fail("C10", "writer/panic/register_extension", line, "register_extension panicked");
                 } else if (r == "ok") != expect_ok && r != "<none>" {
